@@ -427,11 +427,19 @@ func CDSRegion2fromGFF(fs []gff.Feature, refSeqDegapped string) (Region, error) 
 	pos := make([]int, 0)
 	switch fs[0].Strand {
 	case "+":
-		for _, f := range fs {
+		for j, f := range fs {
 			if f.Strand != "+" {
 				return r, errors.New("Error parsing gff: mixed strands within a single ID")
 			}
-			for i := f.Start + f.Phase; i <= f.End; i++ {
+			// the phase of the first line (in reading order) skips the bases of an
+			// incomplete 5' codon; on the following lines of the same ID the bases
+			// before the phase offset complete the codon that was split by the
+			// previous line, so they are coding and must be kept
+			start := f.Start
+			if j == 0 {
+				start += f.Phase
+			}
+			for i := start; i <= f.End; i++ {
 				pos = append(pos, i)
 			}
 		}
@@ -454,7 +462,13 @@ func CDSRegion2fromGFF(fs []gff.Feature, refSeqDegapped string) (Region, error) 
 			if f.Strand != "-" {
 				return r, errors.New("Error parsing gff: mixed strands within a single ID")
 			}
-			for i := f.End - f.Phase; i >= f.Start; i-- {
+			// as above: only the first line in reading order (the last line of a
+			// reverse-strand feature) loses the bases its phase points past
+			end := f.End
+			if j == len(fs)-1 {
+				end -= f.Phase
+			}
+			for i := end; i >= f.Start; i-- {
 				pos = append(pos, i)
 			}
 		}
